@@ -52,6 +52,10 @@ type HarnessResult struct {
 	ByRange      int // branch conditions decided by interval reasoning (no solver query)
 	ByModel      int // branch sides taken because the model at hand witnesses them (no solver query)
 	Violations   []*Violation
+	// NonTermWitness: inputs of the first path that exceeded a loop bound. Not a violation
+	// by itself (the bound may simply be too small): the driver replays it natively and
+	// reports non-termination only if the real code does not come back.
+	NonTermWitness *Violation
 	Inconclusive []string
 	Reached      map[string]int // assert id -> number of paths reaching it
 	Outcomes     map[string]int
@@ -266,12 +270,23 @@ func (e *Exec) RunHarness(fn *ssa.Function) *HarnessResult {
 			res.PathsPruned++
 		case "unsupported", "unwind", "budget":
 			res.Inconclusive = append(res.Inconclusive, out.kind+": "+out.detail)
+			if out.kind == "unwind" && res.NonTermWitness == nil && strings.HasPrefix(out.detail, "loop bound") {
+				if e.solver.Check() == Sat {
+					res.NonTermWitness = &Violation{Harness: res.Name, AssertID: "terminates", Kind: "unwind", Detail: out.detail, Model: e.extractModel(), Path: res.Paths}
+				}
+			}
 		}
 		res.Steps += e.steps
 		if e.Cfg.Debug {
 			fmt.Fprintf(os.Stderr, "  path %d: %s %s (trail %d, steps %d) q=%d hard=%d t=%.1fs terms=%d refresh=%d/%.1fs eval=%.1fs\n", res.Paths, out.kind, out.detail, len(e.trail), e.steps, e.solver.Queries, e.solver.HardQueries, e.solver.Time.Seconds(), e.tb.NumTerms(), e.nRefresh, e.tRefresh.Seconds(), e.tEval.Seconds())
 		}
 		if len(res.Inconclusive) > 20 {
+			break
+		}
+		if res.NonTermWitness != nil {
+			// the harness cannot end OK any more, and paths that run into the loop bound are
+			// the most expensive ones: stop here and let the driver replay the witness
+			res.Inconclusive = append(res.Inconclusive, fmt.Sprintf("exploration stopped at the first path past the loop bound (after %d paths)", res.Paths))
 			break
 		}
 		if e.Cfg.MaxHarnessSeconds > 0 && time.Since(hstart).Seconds() > float64(e.Cfg.MaxHarnessSeconds) {
